@@ -27,7 +27,8 @@ RULE = ("generated directories: 2..3 species (start .itp, end .gro, end .itp; en
         "-o absolute, relative to another working directory, or defaulted, the explicit triples and the --auto listing "
         "spelled as absolute, relative, ./relative or non-normalised paths independently, compared byte-for-byte with the library "
         "workflow under the same numpy seed; (discovery) sort_molecules in fresh interpreters under PYTHONHASHSEED "
-        "0,1,7,random (quick) / 0..5 and two random seeds (thorough) x 4..6 listing orders; (selection) main() with auto_map replaced by a recorder. "
+        "0,1,7,random (quick) / 0..5 and two random seeds (thorough) x 4..6 listing orders, and main() with --mol / --auto / "
+        "--exclude in the same interpreters with the pipeline replaced by a recorder (species and their order); (selection) main() with auto_map replaced by a recorder. "
         "Non-trivial = >=2 discoverable species and >=2 distractors. Distinct = sha1 of the case JSON.")
 ASSUMPTIONS = [
     "Alignment.STEPS_FACTOR (a documented attribute) is lowered to the same value on both sides of the differential",
@@ -278,14 +279,35 @@ def check_discovery(case):
     known = [[spell(p, sp_mol, cwd) for p in D["triples"][nm]] for nm in known_names]
     orders = listing_orders(D["listing"], case["orders"], case["seed"])
     jobs = [{"ref": D["system"], "files": [spell(p, sp_auto, cwd) for p in o], "known": known, "cwd": cwd} for o in orders]
+    # the command line itself (argument handling around the discovery), pipeline replaced by a recorder
+    complete_all = [nm for nm in sorted(D["triples"]) if nm not in D["incomplete"]]
+    excl = ["SP%d" % k for k in case["exclude"] if "SP%d" % k not in known_names]
+    argv = [D["system"]]
+    for t in known:
+        argv += ["--mol"] + t
+    argv += ["--auto"] + jobs[0]["files"]
+    if excl:
+        argv += ["--exclude"] + excl
+    argv += ["-o", os.path.join(D["dir"], "never_written.gro")]
+    main_job = {"main": argv, "cwd": cwd}
+    main_seen = {}
     outcomes = {}
     key_orders = {}
     for hs in hashseeds():
-        for oi, (o, res) in enumerate(zip(orders, run_driver(jobs, hs))):
+        results = run_driver(jobs + [main_job], hs)
+        mres = results.pop()
+        main_seen.setdefault(json.dumps(mres, sort_keys=True), []).append(hs)
+        for oi, (o, res) in enumerate(zip(orders, results)):
             order = res.pop("order", None)
             key = json.dumps(res, sort_keys=True)
             outcomes.setdefault(key, []).append((hs, [os.path.basename(p) for p in o]))
             key_orders.setdefault(oi, {}).setdefault(json.dumps(order), []).append(hs)
+    if len(main_seen) > 1:
+        desc = ["%s -> %s" % (hss, [[os.path.basename(s[0]) for s in c] for c in json.loads(k).get("calls", [])] or json.loads(k).get("error"))
+                for k, hss in main_seen.items()]
+        raise PropertyViolation("cli-hashseed", "the species handed to the mapping pipeline by the command line (--auto%s) "
+                                "differ, in content or order, between hash seeds: %s"
+                                % (" --exclude " + " ".join(excl) if excl else "", " | ".join(desc)), cls="cli-hashseed")
     first = json.loads(next(iter(outcomes)))
     for oi, variants in key_orders.items():
         if len(variants) > 1:
